@@ -31,40 +31,15 @@ theorem lfnbuf_write_over260 (name : List Nat) (chk : Nat) (h : 260 < name.lengt
     simp [lfnGenerateVia, LfnBuf.fromUnits?, h']
   · simp [lfnGenerateVia, LfnBuf.fromUnits?, LfnBuf.asUnits?]
 
-/-- **C19.2** On every slot list in which no valid `0x40`-flagged long-name slot directly follows another long-name slot
-    (`cleanStarts`: each run starts after a short / deleted / label slot, after a corrupt-ordinal slot's successor is
-    unflagged, or at the start), the reader returns identical entries in both variants. -/
-theorem lfnbuf_equiv_read (skipVolume : Bool) (slots : List (List Nat)) (hclean : cleanStarts false slots = true) :
-    readDirEntries true skipVolume slots = readDirEntries false skipVolume slots :=
-  readLoop_equiv skipVolume slots 0 0 false _ _ hclean Sim_new (fun _ => DeadPair_new)
+/-- **C19.2** On EVERY slot list the reader returns identical entries in both variants (both equal the specification
+    parser's, `dirIter_spec`).  Before commit 11043bc this held only on the `cleanStarts` domain (F18). -/
+theorem lfnbuf_equiv_read (skipVolume : Bool) (slots : List (List Nat)) :
+    readDirEntries true skipVolume slots = readDirEntries false skipVolume slots := by
+  rw [dirIter_spec true, dirIter_spec false]
 
-/-- the domain contains everything `lfnGenerate` + a short/label/deleted slot produces, in any context -/
-theorem cleanStarts_generated (name : List Nat) (chk : Nat) (sfn : List Nat) (rest : List (List Nat))
-    (h1 : 1 ≤ name.length) (h260 : name.length ≤ 260) (hu : ∀ x ∈ name, x < 65536)
-    (hsfn : slotClass sfn = .file ∨ slotClass sfn = .volume ∨ slotClass sfn = .deleted) :
-    cleanStarts false (lfnGenerate name chk ++ sfn :: rest) = cleanStarts false rest := by
-  obtain ⟨g1, _, g3, _⟩ := generate_complete name chk h1 h260 hu
-  exact cleanStarts_run chk _ sfn rest g1 g3 hsfn
-
-/-- a plain short / deleted / label slot keeps a directory in the domain -/
-theorem cleanStarts_nonlfn (s : List Nat) (rest : List (List Nat))
-    (hs : slotClass s = .file ∨ slotClass s = .volume ∨ slotClass s = .deleted) (p : Bool) :
-    cleanStarts p (s :: rest) = cleanStarts false rest := by
-  rw [cleanStarts]
-  rcases hs with h | h | h <;> simp [h]
-
-example : readDirEntries true true
-      (lfnGenerate ((List.range 20).map (· + 0x61)) (lfnChecksum C17.leakName) ++
-        [C17.sfnOf C17.leakName, 0xE5 :: List.replicate 31 0, C17.sfnOf C17.longName]) =
-    readDirEntries false true
-      (lfnGenerate ((List.range 20).map (· + 0x61)) (lfnChecksum C17.leakName) ++
-        [C17.sfnOf C17.leakName, 0xE5 :: List.replicate 31 0, C17.sfnOf C17.longName]) :=
-  lfnbuf_equiv_read true _ (by decide +kernel)
-
-/-- off the domain the variants differ (F18) -/
-theorem lfnbuf_equiv_read_counterexample :
-    cleanStarts false C17.f18Witness = false ∧
-      readDirEntries true true C17.f18Witness ≠ readDirEntries false true C17.f18Witness := by
-  decide +kernel
+/-- regression: the former F18 witness (off the old domain) now reads identically -/
+example : cleanStarts false C17.f18Witness = false ∧
+    readDirEntries true true C17.f18Witness = readDirEntries false true C17.f18Witness :=
+  ⟨by decide +kernel, lfnbuf_equiv_read true _⟩
 
 end FatVerif
